@@ -58,10 +58,12 @@ impl<T> ValuesMatrix<T> {
     }
 
     pub fn slice_iter(&self, skip: GenerationIdx) -> impl Iterator<Item = &[T]> {
+        // `skip` is a generation index (see generations_count), so it must be applied before the empty
+        // generations are dropped: generations are counted with the empty ones
         self.values
             .iter()
-            .filter(|generation| !generation.is_empty())
             .skip(skip.into())
+            .filter(|generation| !generation.is_empty())
             .map(|generation| generation.as_ref())
     }
 
